@@ -123,6 +123,10 @@ impl McGroupStatusAnsCreator {
     }
 
     pub fn push(&mut self, group_id: u8, mc_addr: McAddr) -> Result<&mut Self, Error> {
+        // AnsGroupMask has one bit per group and the report carries one item per set bit
+        if usize::from(group_id) >= MAX_GROUPS || self.data[1] & (1 << group_id) != 0 {
+            return Err(Error::InvalidIndex);
+        }
         // update bitmask in status byte
         let bm = 1 << group_id;
         self.data[1] |= bm;
